@@ -57,6 +57,34 @@ def edge_condition(fn, src, dst):
             return [(('switch', t.ops[0], tuple(vals)), True)]
     return []
 
+def implied_atoms(fn, cond, truth, depth=0):
+    """comparisons (icmp instruction, truth) that necessarily hold when the i1 value `cond` has value `truth`:
+    !x, a && b (true), a || b (false) and their select forms are decomposed"""
+    d = fn.defs.get(cond) if isinstance(cond, str) else None
+    if d is None or depth > 8:
+        return []
+    if d.op == 'icmp':
+        return [(d, truth)]
+    if d.op == 'xor' and 'true' in d.ops:
+        return implied_atoms(fn, d.ops[0] if d.ops[1] == 'true' else d.ops[1], not truth, depth + 1)
+    if d.op in ('trunc', 'zext') :
+        return implied_atoms(fn, d.ops[0], truth, depth + 1)
+    parts = []
+    if d.op == 'or' and d.ty == 'i1' and not truth:
+        parts = [(d.ops[0], False), (d.ops[1], False)]
+    elif d.op == 'and' and d.ty == 'i1' and truth:
+        parts = [(d.ops[0], True), (d.ops[1], True)]
+    elif d.op == 'select' and d.ty == 'i1':
+        c, a, b = d.ops
+        if a == 'true' and not truth: parts = [(c, False), (b, False)]
+        elif b == 'false' and truth: parts = [(c, True), (a, True)]
+        elif a == 'false' and truth: parts = [(c, False), (b, True)]
+        elif b == 'true' and not truth: parts = [(c, True), (a, False)]
+    out = []
+    for v, t in parts:
+        out += implied_atoms(fn, v, t, depth + 1)
+    return out
+
 class Facts:
     """facts that hold at a block: list of (pred, lhs_canon, rhs_canon, width) all TRUE"""
     def __init__(self, prog, fn, block, canon=None, extra_edge=None):
